@@ -117,6 +117,14 @@ func genRun(r *hx.Rand, aligned bool) input {
 		for k := r.Intn(3); k > 0; k-- {
 			st.ServeOut = append(st.ServeOut, r.Intn(4))
 		}
+		if r.Chance(1, 6) { // a stray response (unknown RspTo) of either kind on either port
+			x := []int{-1, int(in.GIn), 3}[r.Intn(3)]
+			if r.Bool() {
+				st.StrayIn = append(st.StrayIn, x)
+			} else {
+				st.StrayOut = append(st.StrayOut, x)
+			}
+		}
 		in.Script = append(in.Script, st)
 	}
 	if len(moves) > 0 {
